@@ -677,13 +677,30 @@ func (cm cmap4) RuneRanges(dst [][2]rune) [][2]rune {
 		dst = make([][2]rune, 0, len(cm))
 	}
 	dst = dst[:0]
-	for _, e := range cm {
-		start, end := rune(e.start), rune(e.end)
+	add := func(start, end rune) {
 		if L := len(dst); L != 0 && dst[L-1][1] == start {
 			// grow the previous range
 			dst[L-1][1] = end
 		} else {
 			dst = append(dst, [2]rune{start, end})
+		}
+	}
+	for _, e := range cm {
+		if e.indexes == nil {
+			add(rune(e.start), rune(e.end))
+			continue
+		}
+		// the entries with value 0 are not mapped : split the segment around them
+		for i := 0; i < len(e.indexes); i++ {
+			if e.indexes[i] == 0 {
+				continue
+			}
+			j := i
+			for j+1 < len(e.indexes) && e.indexes[j+1] != 0 {
+				j++
+			}
+			add(rune(e.start)+rune(i), rune(e.start)+rune(j))
+			i = j
 		}
 	}
 	return dst
